@@ -79,6 +79,27 @@ Definition core_chk (p : table * str * list (table * str)) : bool :=
    forallb (fun r => str_eqb (snd r) (sim T x)) runs).
 """
 
+SCAN_HEADER = """From Coq Require Import List NArith Bool.
+From MWF Require Import Base.Str Expand.PyStr Expand.Subst.
+Import ListNotations.
+Definition A_ := @app N.
+(* (text, re.findall(WSREGEX, text)) *)
+Definition scan_chk (p : str * list str) : bool := list_str_eqb (ws_findall (fst p)) (snd p).
+"""
+
+NESTED_HEADER = """From Coq Require Import List NArith Bool.
+From MWF Require Import Base.Str Expand.PyStr Expand.Subst.
+Import ListNotations.
+Definition A_ := @app N.
+Definition P_ := Build_param.
+(* (one-row parameter table, value, utils.apply_function(value, Combination.apply)) *)
+Definition nested_chk (p : list param * pyval * pyval) : bool :=
+  let '(ps, v, out) := p in
+  pyval_eqb (apply_function (param_pass Model ps 0) v) out &&
+  pyval_eqb (skeleton out) (skeleton v) &&
+  list_str_eqb (strings_of out) (map (apply_str (param_pass Model ps 0)) (strings_of v)).
+"""
+
 
 # ----------------------------------------------------------------------------
 # Gallina literals
@@ -644,6 +665,96 @@ def g_core(c):
     return "(%s, %s, %s)" % (g_table(T), g_str(x), g_list(["(%s, %s)" % (g_table(l), g_str(y)) for l, y in runs]))
 
 
+def scan_run(ck, rng, n, dist):
+    """re.findall(WSREGEX, text) of the real module against `ws_findall`, on
+    texts over an alphabet of regex-relevant fragments (ASCII: the model reads
+    \\w as [A-Za-z0-9_], DESIGN section 8)."""
+    frags = ["$(", "a", "b-1", ".workspace)", ".workspace", ")", "(", "/", " ", ".", "$", "x.y", "workspace",
+             "$(a.workspace)", "$(b-1.workspace)", "_", ":", "'", "#", "\n", "$(P)", "$(WORKSPACE)", ",", "*", "w"]
+    texts = [""]
+    for k in (1, 2):
+        texts += ["".join(c) for c in itertools.product(frags[:14], repeat=k)]
+    if ck.tier == "thorough":
+        texts += ["".join(c) for c in itertools.product(frags[:9], repeat=3)]
+    for _ in range(n):
+        texts.append("".join(rng.choice(frags) for _ in range(rng.choice([3, 4, 5, 6, 8, 10]))))
+    try:
+        from maestrowf.datastructures.core.study import WSREGEX
+        found = [[m if isinstance(m, str) else "TUPLE:" + "|".join(m) for m in re.findall(WSREGEX, x)] for x in texts]
+    except Exception as e:
+        ck.mismatch("WSREGEX could not be evaluated: %s: %s" % (type(e).__name__, e), None)
+        return
+    lits = ["(%s, %s)" % (g_str(x), g_list([g_str(m) for m in f])) for x, f in zip(texts, found)]
+    bad, errs = common.coq_failing("C09scan", SCAN_HEADER, "str * list str", "scan_chk", lits, shard=400, timeout=900)
+    dist["wsregex_scan_cases"] += len(texts)
+    dist["wsregex_scan_with_match"] += sum(1 for f in found if f)
+    ck.count("scan", nontrivial=False, n=len(texts))
+    for i in bad[:5]:
+        ck.mismatch("ws_findall (model of re.findall(WSREGEX, .)) disagrees with the implementation's regex",
+                    {"text": texts[i], "python": found[i]})
+    for e in errs:
+        ck.mismatch("coqc failed on scan cases file", None, e[1])
+
+
+def _nested_value(rng, toks, depth):
+    c = rng.random()
+    if depth <= 0 or c < 0.35:
+        k = rng.random()
+        if k < 0.6:
+            return " ".join(rng.choice(toks + WORDS[:6]) for _ in range(rng.choice([1, 1, 2, 3])))
+        return rng.choice(["", 0, 1, 7, 2.5, 0.0, True, False, None, (1, "$(P)"), "x"])
+    if c < 0.7:
+        return [_nested_value(rng, toks, depth - 1) for _ in range(rng.choice([0, 1, 2, 3]))]
+    return OrderedDict((rng.choice(["k", "cmd", "$(P)", "n"]) + str(i), _nested_value(rng, toks, depth - 1))
+                       for i in range(rng.choice([0, 1, 2, 3])))
+
+
+def nested_run(ck, rng, n, dist):
+    """utils.apply_function with the real Combination.apply on nested lists /
+    dicts (C09_recursion): result, skeleton and visited strings."""
+    import copy
+    cases = []
+    try:
+        from maestrowf.utils import apply_function
+        from maestrowf.datastructures.core.parameters import Combination
+    except Exception as e:
+        ck.mismatch("apply_function / Combination could not be imported: %r" % (e,), None)
+        return
+    for _ in range(n):
+        keys = rng.sample(["P", "SIZE", "SIZEX", "IT"], rng.choice([1, 2, 3]))
+        rows = [(k, rng.choice(["", "nm " + k]), rng.choice([1, 2.5, "v w", "é", True]), rng.choice(["%s.1" % k, "L"])) for k in keys]
+        toks = [f % k for k in keys for f in ("$(%s)", "$(%s.label)", "$(%s.name)")] + ["$(U)", "$(date)", "$"]
+        v = _nested_value(rng, toks, rng.choice([1, 2, 3, 4]))
+        try:
+            combo = Combination()
+            for k, nm, val, lab in rows:
+                combo.add(k, nm or k, val, lab)
+            out = apply_function(copy.deepcopy(v), combo.apply)
+        except Exception as e:
+            ck.mismatch("apply_function raised %s: %s" % (type(e).__name__, str(e)[:200]), {"value": repr(v)})
+            continue
+        ps = g_list(["P_ %s %s %s (LList [%s])" % (g_str(k), g_str(nm), g_list([g_str(str(val))]), g_str(lab))
+                     for k, nm, val, lab in rows])
+        cases.append(("(%s, %s, %s)" % (ps, g_pyval(v), g_pyval(out)), v, out))
+        dist["nested_depth:%d" % _depth(v)] += 1
+    bad, errs = common.coq_failing("C09nest", NESTED_HEADER, "list param * pyval * pyval", "nested_chk",
+                                   [c[0] for c in cases], shard=400, timeout=900)
+    ck.count("nested", nontrivial=False, n=len(cases))
+    for i in bad[:5]:
+        ck.mismatch("apply_function (model) disagrees with utils.apply_function",
+                    {"value": repr(cases[i][1]), "python": repr(cases[i][2])})
+    for e in errs:
+        ck.mismatch("coqc failed on nested cases file", None, e[1])
+
+
+def _depth(v):
+    if isinstance(v, list):
+        return 1 + max([_depth(x) for x in v] or [0])
+    if isinstance(v, dict):
+        return 1 + max([_depth(x) for x in v.values()] or [0])
+    return 0
+
+
 # ----------------------------------------------------------------------------
 # Decoding Coq's answer (debug output for replay files)
 # ----------------------------------------------------------------------------
@@ -727,6 +838,7 @@ def _case_json(c):
 
 
 def classify(ck, rows, errs, dist):
+    known_ids = {k.get("id") for k in ck.known}
     for r in rows:
         c = r["case"]
         stream = c.get("stream", "?")
@@ -753,21 +865,21 @@ def classify(ck, rows, errs, dist):
             ck.mismatch("generated case is outside the model's validity domain (generator defect)", cj)
             continue
         if not r.get("chk_mon", True):
-            if not r.get("chk_notK4a", True):
+            if not r.get("chk_notK4a", True) and "K4a" in known_ids:
                 ck.known_hit("K4a", "adjacent workspace tokens are scanned as one workspace name by WSREGEX; "
                                     "staging raises instead of substituting (stream %s)" % stream)
                 dist["known:K4a"] += 1
                 if not r.get("chk_corr", True):
                     ck.mismatch("model and implementation disagree on a K4a input", cj, model_text(r["model"]))
                 continue
-            if not r.get("hyg", True):
+            if not r.get("hyg", True) and "K4b" in known_ids:
                 ck.known_hit("K4b", "token text that arises from substituted values (inside a value or at a "
                                     "junction) is substituted again by a later replace or survives (stream %s)" % stream)
                 dist["known:K4b"] += 1
                 if not r.get("chk_corr", True):
                     ck.mismatch("model and implementation disagree on a K4b input", cj, model_text(r["model"]))
                 continue
-            ck.violation("C09_ok is false on the implementation's texts (hygienic input, no known signature)", cj)
+            ck.violation("C09_ok is false on the implementation's texts (no listed known-finding signature)", cj)
             continue
         if not r.get("chk_corr", True):
             ck.mismatch("model and implementation disagree", cj,
@@ -801,6 +913,8 @@ def run(ck):
     rows, errs = evaluate(ck, cases, "", shard=(24 if quick else 200))
     classify(ck, rows, errs, dist)
     core_run(ck, rng, n_core, dist)
+    scan_run(ck, rng, 300 if quick else 4000, dist)
+    nested_run(ck, rng, 200 if quick else 3000, dist)
     # known-finding witnesses must be present in the corpus
     for kn in ck.known:
         w = kn.get("witness", "")
